@@ -91,6 +91,8 @@ func itemKinds() []kindDef {
 		kindDef{"any", func(d *Doc) *Schema { return &Schema{} }},
 		kindDef{"object", func(d *Doc) *Schema { return objAB() }},
 		kindDef{"array-string", func(d *Doc) *Schema { return &Schema{Type: "array", Items: &Schema{Type: "string"}} }},
+		kindDef{"inline-allOf", func(d *Doc) *Schema { return &Schema{AllOf: []*Schema{addComp(d, "BaseObj", objAB()), objCD()}} }},
+		kindDef{"inline-oneOf", func(d *Doc) *Schema { return oneOfRefs(d) }},
 		kindDef{"ref-object", func(d *Doc) *Schema { return addComp(d, "ItemObj", objAB()) }},
 		kindDef{"ref-string", func(d *Doc) *Schema { return addComp(d, "ItemStr", &Schema{Type: "string"}) }},
 		kindDef{"ref-int64", func(d *Doc) *Schema { return addComp(d, "ItemInt", &Schema{Type: "integer", Format: "int64"}) }},
